@@ -102,6 +102,7 @@ func (s *ServerKeyStore) ListKeys() ([]keystore.KeyDescription, error) {
 	}
 
 	// we need to open each keyring to get the current key idx
+	current := descriptions[:0]
 	for i := 0; i < len(descriptions); i++ {
 		ring, err := s.OpenKeyRing(descriptions[i].KeyID)
 		if err != nil {
@@ -110,6 +111,11 @@ func (s *ServerKeyStore) ListKeys() ([]keystore.KeyDescription, error) {
 		}
 
 		currentKeyID, err := ring.CurrentKey()
+		if err == api.ErrNoCurrentKey {
+			// Key ring without keys (created by opening it for writing, e.g. by destroying
+			// a key that was never generated): nothing to list, other key rings must stay listed.
+			continue
+		}
 		if err != nil {
 			log.WithError(err).WithField("KeyID", descriptions[i].KeyID).Debug("Failed to get CurrentKeyID")
 			return nil, err
@@ -125,9 +131,10 @@ func (s *ServerKeyStore) ListKeys() ([]keystore.KeyDescription, error) {
 		descriptions[i].Index = 1
 		descriptions[i].CreationTime = &creationTime
 		descriptions[i].State = keystore.StateCurrent
+		current = append(current, descriptions[i])
 	}
 
-	return descriptions, nil
+	return current, nil
 }
 
 // CacheOnStart v2 keystore doesnt support keys caching
